@@ -82,6 +82,11 @@ StepH(E, H, N, PH, v)      == [ i \in 1..Size(N) |-> GSub(H[i], CurlFwd(E, i, N,
 \* index in the N-cell lattice of which big-lattice index I (lattice N*M) is a copy, and the copy number per axis
 SrcIdx(I, N, M) == LET NB == Mul3(N, M)
                    IN  Lin(Comp(I, NB), Coord(I, NB, 1) % N[1], Coord(I, NB, 2) % N[2], Coord(I, NB, 3) % N[3], N)
+\* the same for an array with `nc` leading components instead of 3 (material arrays: nc = 1 or 3)
+SrcIdx1(I, N, M, nc) ==
+    LET NB == Mul3(N, M)
+        p  == (I - 1) \div Cells(NB)
+    IN  Lin(p, Coord(I, NB, 1) % N[1], Coord(I, NB, 2) % N[2], Coord(I, NB, 3) % N[3], N)
 CopyNo(I, N, M, a) == Coord(I, Mul3(N, M), a) \div N[a]
 \* copy j = <<jx, jy, jz>> of the N-cell field carries the phase prod_a PHI[a]^j[a]
 TilePhase(j, PHI) == GMul(GPow(PHI[1], j[1]), GMul(GPow(PHI[2], j[2]), GPow(PHI[3], j[3])))
